@@ -1285,10 +1285,11 @@ package keyvalue
 //@   propagates [C14] getFile unless errIs(e, hackpadfs.ErrNotExist)
 //@   propagates [C14] Stat
 //@   propagates [C14] Commit
-//@   callsite Rename requires "each-listed-child-moves-to-the-same-name-below-the-destination" [C01 C03] arg0 == fs && rangeindex >= 0 && rangeindex < len(files) &&
+//@   callsite Rename requires "each-listed-child-moves-to-the-same-name-below-the-destination" [C01 C03] arg0 == fs && rangeindex >= 0 && rangeindex < len(files) && ncalls("Rename") == rangeindex &&
 //@                     arg1 == pathJoin(oldname, files[rangeindex]) && arg2 == pathJoin(newname, files[rangeindex])
 //@   callsite setFile requires "directory-record-created-at-the-destination-removed-at-the-source" [C01 C03] arg0 == fs && ((arg1 == newname && arg2 == FileRecord(oldFile.fileData) && arg2 != nil) || (arg1 == oldname && arg2 == nil))
 //@   loop 1 modifies mapOf(ms(fs).records), held(ms(fs).mu), world()
+//@   loop 1 invariant "one-move-per-listed-child" ncalls("Rename") == rangeindex + 1 && ncalls("setFile") == 1 && called("ReadDirNames") && files == result("ReadDirNames", 0)
 //@   loop 1 invariant "children-so-far-moved" !failed("Rename") && !failed("setFile") && !failed("setFileTxn") && !failed("ReadDirNames") && !failed("Data") && !failed("getFile") && !failed("Stat") && !failed("Commit") && !called("Commit")
 //@   loop 1 invariant "inv" fsOK(fs) && VP(oldname) && VP(newname) && rangeindex >= -1 && rangeindex < max(len(files), 1) && (len(files) > 0 || rangeindex == -1) && implies(isMem(fs), world() == old(world()))
 //@   ensures "gate" [C04 C05] implies(isMem(fs) && !VP(oldname) || !VP(newname), linkErr(err, oldname, newname) && errIs(err, hackpadfs.ErrInvalid) && memSame(fs) && world() == old(world()))
@@ -1309,6 +1310,7 @@ package keyvalue
 //@   ensures "file-moved" [C01 C03] implies(isMem(fs) && rnValid(oldname, newname) && oldname != "." && old(rnSrcFile(fs, oldname)) && oldname != newname && !(old(kvHas(fs, newname)) && old(memIsDir(fs, newname))) && old(rnDestParentOK(fs, newname)),
 //@                     err == nil && !kvHas(fs, oldname) && kvHas(fs, newname) && memSameExcept2(fs, oldname, newname) && isType(kvRec(fs, newname), mem.fileRecord) &&
 //@                     memRec(fs, newname).mode == old(memRec(fs, oldname).mode) && memRec(fs, newname).data == old(memRec(fs, oldname).data) && memRec(fs, newname).modTime == old(memRec(fs, oldname).modTime))
+//@   ensures "every-listed-child-moved" [C01 C03] implies(err == nil && called("ReadDirNames"), ncalls("Rename") == len(result("ReadDirNames", 0)) && ncalls("setFile") == 2)   // a directory: its record, then each listed child in listing order (call-site clauses), then the source record
 //@   ensures "tree-file" [C03] implies(isMem(fs) && old(treeInv(fs)) && !old(rnSrcDir(fs, oldname)), treeInv(fs))
 //@   ensures "typed" [C05] implies(isMem(fs) && err != nil, isLinkError(err))   // a failing plain store's own errors are passed on as they are (outside C05's failure situations)
 //@   ensures "mem-world" implies(isMem(fs), world() == old(world()))
